@@ -109,8 +109,14 @@ func externalMW(f *ssa.Function, pos int) (overwrites bool, known bool) {
 		}
 		return true, true // gnark mutators compute the receiver from their operands
 	}
-	if core.IsMethod(f, "bls12-381/bandersnatch", f.Signature.Recv().Type().String(), f.Name()) {
-		return pos == 0, true
+	if r := f.Signature.Recv(); r != nil {
+		t := r.Type()
+		if p, ok := t.(*types.Pointer); ok {
+			t = p.Elem()
+		}
+		if n, ok := t.(*types.Named); ok && n.Obj().Pkg() != nil && strings.HasSuffix(n.Obj().Pkg().Path(), "bls12-381/bandersnatch") {
+			return pos == 0, true
+		}
 	}
 	return false, false
 }
